@@ -95,11 +95,12 @@ PROPS['C03'] = dict(
     level='exploration',
     rule='case = table with order pattern (all-k for k=0..5 in 1..9 dims, the two known 6-d patterns, random mixed) x 4-120 points x '
          '{float,double}; all entry points (member, evaluator ndsplineeval/operator(), call operator, C interface) for value, bitmask '
-         'derivatives, gradient, ndsplineeval_deriv and centres compared bit-for-bit; distinct_nontrivial counts distinct '
+         'derivatives, gradient, ndsplineeval_deriv and centres compared bit-for-bit, the member value once more after all other paths have run (each comparison starts from the default floating-point control state); a fifth of the tables has coefficients of 1e-33..1e-42 so that terms and sums are subnormal in float; distinct_nontrivial counts distinct '
          '(table,point,precision) triples with successful lookup; hook H1 proves which specialised core ran',
     assumptions=ASSUME_COMMON + ['bit identity is a statement about this compiler, flags and target'],
     post=c03_post,
-    require={'any': {'comparisons:value': 2000, 'comparisons:gradient': 1000}},
+    require={'any': {'comparisons:value': 2000, 'comparisons:gradient': 1000, 'comparisons:value-repeated': 2000,
+                     'tables-with-coefficients-near-or-in-the-subnormal-range-of-float': 40}},
 )
 PROPS['C04'] = dict(
     level_text='Exploration with a complete per-table battery of special coordinates (every knot and both neighbours, infinities, denormals, extremes) against an independent linear-scan oracle; termination decided on logical steps by hook H2.',
